@@ -138,7 +138,7 @@ func runC10(c *Ctx) {
 		p = 2
 	}
 	c.Bound("base", fmt.Sprintf("BaseClient: every unordered pair of calls from %v running concurrently with each other and with the reader acknowledging an inbound QoS 1 and QoS 2 message; chunked transport; P<=%d S<=1; race monitor on", c10BaseOps, p))
-	c.Bound("reconnecting", fmt.Sprintf("ReconnectClient/RetryClient: every unordered pair of calls from %v while the peer cuts the first connection once (one reconnect happens meanwhile); chunked transport; delay-bounded: at most %d deviations (preemptions or non-default task choices at blocking points) from the default schedule; race monitor on", c10RetryOps, p))
+	c.Bound("reconnecting", fmt.Sprintf("ReconnectClient/RetryClient: every unordered pair of calls from %v, and every call paired with a concurrent Disconnect of the client, while the peer cuts the first connection once (one reconnect happens meanwhile); chunked transport; delay-bounded: at most %d deviations (preemptions or non-default task choices at blocking points) from the default schedule; race monitor on", c10RetryOps, p))
 	var lastNet *env.Net
 	for i, a := range c10BaseOps {
 		for _, b := range c10BaseOps[i:] {
